@@ -345,6 +345,38 @@ def r12_static_str(text: str) -> List[Edit]:
     return out
 
 
+def r13_let_chain(text: str) -> List[Edit]:
+    """R13: `if let P = E && C { BODY }` (no `else`) -> `if let P = E { if C { BODY } }` - the let-chain lowering; only
+    applied when no else branch follows (then the two forms are equivalent)."""
+    out = []
+    ct = code_tokens(lex(text))
+    i = 0
+    while i + 1 < len(ct):
+        if ct[i].text == 'if' and ct[i + 1].text == 'let':
+            # header up to the body `{` at depth 0 (blocks in expression position do not occur in the covered code)
+            j = i + 2
+            amp = None
+            depth = 0
+            while j < len(ct):
+                x = ct[j].text
+                if x in ('(', '['):
+                    j = match_close(ct, j)
+                elif x == '&&' and amp is None:
+                    amp = j
+                elif x == '{':
+                    break
+                j += 1
+            if amp is not None and j < len(ct):
+                close = match_close(ct, j)
+                if close + 1 < len(ct) and ct[close + 1].text == 'else':
+                    raise RsxError('unsupported-construct: R13 let chain with an else branch')
+                out.append(Edit(ct[amp].start, ct[amp].end, '{ if', 'R13', 'let chain `if let P = E && C` -> nested if'))
+                out.append(Edit(ct[close].end, ct[close].end, ' }', 'R13', 'closing brace of the nested if'))
+            i = j
+        i += 1
+    return out
+
+
 def apply_edits(text: str, edits: List[Edit]):
     """apply right-to-left; drop edits nested in a deleted span; returns (new_text, applied)"""
     edits = sorted(edits, key=lambda e: (e.start, -(e.end - e.start)))
@@ -361,4 +393,4 @@ def apply_edits(text: str, edits: List[Edit]):
     return out, kept
 
 
-RULES = {'R1': r1_trace, 'R2': r2_debug_assert, 'R4': r4_clone_from, 'R5': r5_format, 'R6': r6_attrs_docs, 'R10': r10_inner_use, 'R12': r12_static_str}
+RULES = {'R1': r1_trace, 'R2': r2_debug_assert, 'R4': r4_clone_from, 'R5': r5_format, 'R6': r6_attrs_docs, 'R10': r10_inner_use, 'R12': r12_static_str, 'R13': r13_let_chain}
